@@ -23,6 +23,9 @@ pub enum POp {
 #[derive(Clone, Debug, Serialize, Deserialize)]
 pub struct Scn {
     pub ops: Vec<POp>,
+    /// the emulator's print-messages option (-m) is on: messages are also printed, and must still be sent
+    #[serde(default)]
+    pub print_msgs: bool,
 }
 
 pub struct C16;
@@ -140,7 +143,8 @@ fn read_all(cpu: &Cpu) -> [u8; NPORTS] {
 }
 
 /// Run against the real code with the given model deviation. Ok(sig) or Err(step, message).
-fn run_ops(ops: &[POp], dev: Deviation, stats: &mut Stats, sig: &mut Fnv) -> Result<(), (usize, String)> {
+fn run_ops(ops: &[POp], dev: Deviation, stats: &mut Stats, sig: &mut Fnv, print_msgs: bool) -> Result<(), (usize, String)> {
+    *crate::setting::ENABLE_PRINT_MESSAGES.write().unwrap() = print_msgs;
     let mut cpu = Cpu::new();
     let (tx, rx) = mpsc::channel::<String>();
     cpu.bus.message_tx = Some(tx);
@@ -245,10 +249,10 @@ impl Property for C16 {
                 0 => POp::Ddr { port, val },
                 1 => POp::Dr { port, val },
                 2 => POp::Pins { port, val },
-                _ => POp::Time(rng.range(1, 500) as u32),
+                _ => POp::Time(if rng.chance(1, 12) { 0xffff_ff00 + rng.below(0x100) as u32 } else { rng.range(1, 500) as u32 }),
             });
         }
-        Scn { ops }
+        Scn { ops, print_msgs: rng.chance(1, 8) }
     }
 
     fn execute(scn: &Scn, stats: &mut Stats) -> Verdict {
@@ -261,20 +265,29 @@ impl Property for C16 {
         }
         let mut sig = Fnv::new();
         let mut local = Stats::new();
-        match guarded(|| run_ops(&scn.ops, Deviation::default(), &mut local, &mut sig)) {
+        let r0 = guarded(|| run_ops(&scn.ops, Deviation::default(), &mut local, &mut sig, scn.print_msgs));
+        *crate::setting::ENABLE_PRINT_MESSAGES.write().unwrap() = false;
+        if scn.print_msgs {
+            let _ = crate::harness::take_console();
+            bump(stats, "event.print_messages_option_on");
+        }
+        match r0 {
             Err(p) => Verdict::Fail(Failure::keyed("panic", format!("{}:{}", p.file, p.msg), format!("panic at {}:{}: {}", p.file, p.line, p.msg))),
             Ok(Ok(())) => {
                 for (k, v) in local {
                     add(stats, &k, v);
                 }
                 let nontrivial = scn.ops.iter().filter(|o| !matches!(o, POp::Time(_))).count() >= 2;
+                add(stats, "event.ddr_writes", scn.ops.iter().filter(|o| matches!(o, POp::Ddr { .. })).count() as u64);
+                add(stats, "event.dr_writes", scn.ops.iter().filter(|o| matches!(o, POp::Dr { .. })).count() as u64);
+                add(stats, "event.external_pin_changes", scn.ops.iter().filter(|o| matches!(o, POp::Pins { .. })).count() as u64);
                 Verdict::Pass { sig: sig.0, nontrivial }
             }
             Ok(Err((step, msg))) => {
                 // attribution: does the real trace equal the model with exactly the known deviation switched on?
                 let mut s2 = Stats::new();
                 let mut sg = Fnv::new();
-                let key = match guarded(|| run_ops(&scn.ops, Deviation { latch_follows_pin: true }, &mut s2, &mut sg)) {
+                let key = match guarded(|| run_ops(&scn.ops, Deviation { latch_follows_pin: true }, &mut s2, &mut sg, scn.print_msgs)) {
                     Ok(Ok(())) => Some("C16/latch-follows-pin".to_string()),
                     _ => None,
                 };
@@ -284,7 +297,10 @@ impl Property for C16 {
     }
 
     fn shrink(scn: &Scn) -> Vec<Scn> {
-        let mut out: Vec<Scn> = remove_chunks(&scn.ops).into_iter().map(|ops| Scn { ops }).collect();
+        let mut out: Vec<Scn> = remove_chunks(&scn.ops).into_iter().map(|ops| Scn { ops, ..scn.clone() }).collect();
+        if scn.print_msgs {
+            out.push(Scn { print_msgs: false, ..scn.clone() });
+        }
         for i in 0..scn.ops.len() {
             let cands: Vec<POp> = match scn.ops[i] {
                 POp::Ddr { port, val } if val != 0 => [0x01u8, 0x80, 0xff, val & 0x0f, val & 0xf0].iter().filter(|v| **v != val && v.count_ones() <= val.count_ones()).map(|v| POp::Ddr { port, val: *v }).collect(),
@@ -295,7 +311,7 @@ impl Property for C16 {
             for c in cands {
                 let mut ops = scn.ops.clone();
                 ops[i] = c;
-                out.push(Scn { ops });
+                out.push(Scn { ops, ..scn.clone() });
             }
         }
         out
